@@ -161,6 +161,13 @@ def cast_value(x, dt):
         if k == 'f':
             v = x if xk == 'r' else Sym(z3.simplify(x.as_real()))
             c = core.ctx()
+            if xk == 'i' and c is not None and c.extra.get('int_to_float_monitor') and not z3.is_int_value(x.e):
+                # opt-in: an integer (an id, say) stored into a float array survives only up to 2^53 (float64) / 2^24 (float32)
+                lim = 1 << (53 if dt.itemsize >= 8 else 24)
+                big = z3.Or(x.e > lim, x.e < -lim)
+                if c.feasible(big):
+                    c.report('violation', f'an integer that can exceed 2^{53 if dt.itemsize >= 8 else 24} in magnitude is stored into a {dt.name} array at {_site()}: '
+                             f'distinct integers collapse to the same float', key=f'intfloat:{dt.name}', cond=big, info=dict(site=_site()))
             if dt.itemsize == 4 and c is not None and c.extra.get('mark_precision') and not z3.is_rational_value(v.e):
                 # opt-in precision marker: a value that passes through float32 is wrapped in an uninterpreted rounding
                 # function, so that "computed in float32" and "computed in float64" are different terms
